@@ -453,10 +453,41 @@ package keeper
 
 // ---- attestation (C01)
 
+// validAtt(message, attestation, attesters, threshold) is C01's acceptance predicate. Its definition, for the
+// arguments of this call: exactly threshold 65-byte signatures; each recovers (after 27/28 -> 0/1 normalisation of
+// the recovery byte) over keccak256(message) to the key of some listed attester; Ethereum-style signer addresses
+// strictly increase from one signature to the next (hence pairwise distinct signers: lemma C01.distinct).
+//@ macro sigOff(i)           := 65 * uint64(i)
+//@ macro sigAt(att, i)       := att[sigOff(i) : sigOff(i) + 65]
+// sigN(att, i): the i-th signature, recovery byte normalised. addrK(k): Ethereum address of public key k.
+// Both are opaque in the quantified clauses and revealed where the code computes them.
+//@ specfun sigN(att: bytes, i: uint32): bytes[65] := normV(sigAt(att, i))
+//@ specfun addrK(k: bytes): bytes[20] := addrOfKey(k)
+//@ specfun addrLT(a: bytes, b: bytes): bool := addrLess(a, b)
+//@ macro recOK(m, att, i)    := ecrecOK(keccak(m), sigN(att, i))
+//@ macro recKey(m, att, i)   := ecrecKey(keccak(m), sigN(att, i))
+//@ macro isMember(k, keys)   := exists j: int :: hint(j) && 0 <= j && j < len(keys) && fromHex(keys[j].Attester) == k
+//@ macro ordered(m, att, i)  := i > 0 ==> addrLT(addrK(recKey(m, att, i - 1)), addrK(recKey(m, att, i)))
+//@ macro sigOK(m, att, keys, i) := recOK(m, att, i) && isMember(recKey(m, att, i), keys) && ordered(m, att, i)
+//@ macro attDef(m, att, keys, T) := T != 0 && uint64(len(att)) == 65 * uint64(T) && forall q: uint32 :: hint(q) && q < T ==> sigOK(m, att, keys, q)
+
 //@ func VerifyAttestationSignatures(message, attestation, publicKeys, signatureThreshold) (err)
-//@ trusted
-//@ ensures[def] (err == nil) <==> validAtt(message, old(attestation), publicKeys, signatureThreshold)
+//@ defines validAtt(message, attestation, publicKeys, signatureThreshold) := attDef(message, attestation, publicKeys, signatureThreshold)
+//@ ensures[C01.sound]    err == nil ==> validAtt(message, old(attestation), publicKeys, signatureThreshold)
+//@ ensures[C01.complete] err != nil ==> !validAtt(message, old(attestation), publicKeys, signatureThreshold)
 //@ assigns attestation
+//@ assert@Ecrecover[C01.sig] reveal(sigN(old(attestation), i)) && $1 == sigN(old(attestation), i)
+//@ assert@PubkeyToAddress[C01.addr] reveal(addrK(recKey(message, old(attestation), i))) && reveal(addrK(recKey(message, old(attestation), i - 1)))
+//@ assert@bytes.Compare[C01.cmp] reveal(addrLT(addrK(recKey(message, old(attestation), i - 1)), addrK(recKey(message, old(attestation), i))))
+//@ loop 0 invariant[C01.nowrap] i < signatureThreshold ==> uint64(i + 1) == uint64(i) + 1
+//@ loop 0 invariant[C01.inside] i < signatureThreshold ==> sigOff(i) + 65 <= uint64(len(attestation)) && sigOff(i) <= sigOff(i) + 65
+//@ loop 0 invariant[C01.bound]  hint(i) && i <= signatureThreshold && signatureThreshold != 0 && uint64(len(attestation)) == 65 * uint64(signatureThreshold)
+//@ loop 0 invariant[C01.done.rec]    forall q: uint32 :: hint(q) && q < i ==> recOK(message, old(attestation), q)
+//@ loop 0 invariant[C01.done.member] forall q: uint32 :: hint(q) && q < i ==> isMember(recKey(message, old(attestation), q), publicKeys)
+//@ loop 0 invariant[C01.done.order]  forall q: uint32 :: hint(q) && q < i ==> ordered(message, old(attestation), q)
+//@ loop 0 invariant[C01.latest] (i == 0 ==> latestECDSA.X == nil && latestECDSA.Y == nil) && (i > 0 ==> latestECDSA.X != nil && latestECDSA.Y != nil && big(latestECDSA.X) == keyX(recKey(message, old(attestation), i - 1)) && big(latestECDSA.Y) == keyY(recKey(message, old(attestation), i - 1)))
+//@ loop 0 invariant[C01.tail]   hintRange(sigOff(i), 65) && forall p: uint64 :: hint(p) && p >= sigOff(i) ==> mem(attestation, p) == old(mem(attestation, p))
+//@ loop 1 invariant[C01.scan]   hint(rangeindex + 1) && rangeindex >= -1 && rangeindex < len(publicKeys) && forall j: int :: hint(j) && 0 <= j && j <= rangeindex ==> fromHex(publicKeys[j].Attester) != recKey(message, old(attestation), i)
 
 // The store iterator yields the prefix range in key order (L0); the list built from it is st.attList.
 //@ func (Keeper) GetAllAttesters(ctx) (list)
